@@ -341,6 +341,8 @@ var Describe = &atree.VerifDescribe{
 		switch x := s.(type) {
 		case TV:
 			return fmt.Sprintf("v%d", x.Pay)
+		case FS:
+			return fmt.Sprintf("f%d", x.Pay)
 		}
 		return fmt.Sprintf("?%T", s)
 	},
